@@ -257,3 +257,30 @@ def deep_stmts(node, kinds=None):
     out = [n for n in walk_no_nested(node) if isinstance(n, ast.stmt) and n is not node and (kinds is None or isinstance(n, kinds))]
     out.sort(key=lambda n: (getattr(n, "lineno", 0), getattr(n, "col_offset", 0)))
     return out
+
+
+def blocks_of(node):
+    """every statement list of a function (bodies, else branches, handlers ...), not nested defs"""
+    out = []
+    for n in walk_no_nested(node):
+        for fld in ("body", "orelse", "finalbody"):
+            b = getattr(n, fld, None)
+            if isinstance(b, list) and b and isinstance(b[0], ast.stmt):
+                out.append(b)
+    return out
+
+
+def rebuilds_from_members(fn, buf="self._data", lists=("self.avps", "self._avps")):
+    """`<buf> = b''` followed (same statement list) by `for v in <members>: <buf> += v.dump()`; any loop variable name."""
+    for b in blocks_of(fn):
+        reset = None
+        for i, s in enumerate(b):
+            if isinstance(s, ast.Assign) and len(s.targets) == 1 and ast.unparse(s.targets[0]) == buf \
+                    and isinstance(s.value, ast.Constant) and s.value.value == b"":
+                reset = i
+            if reset is not None and isinstance(s, ast.For) and isinstance(s.target, ast.Name) and ast.unparse(s.iter) in lists:
+                v = s.target.id
+                if any(isinstance(x, ast.AugAssign) and isinstance(x.op, ast.Add) and ast.unparse(x.target) == buf
+                       and ast.unparse(x.value) == f"{v}.dump()" for x in s.body):
+                    return True
+    return False
